@@ -77,6 +77,15 @@ def scan_assumptions(text):
 
 
 def run_unit(name, rlimit=None, extra_args=(), expanded_src=None, use_cache=True, timeout=None, portfolio=None):
+    r = _run_unit_once(name, rlimit, extra_args, expanded_src, use_cache, timeout, portfolio)
+    if r.undecided and "produced no JSON" in r.undecided:
+        # another check working on the same unit file at the same moment: run again
+        time.sleep(2)
+        r = _run_unit_once(name, rlimit, extra_args, expanded_src, use_cache, timeout, portfolio)
+    return r
+
+
+def _run_unit_once(name, rlimit=None, extra_args=(), expanded_src=None, use_cache=True, timeout=None, portfolio=None):
     u = unitgen.generate(name, expanded_src=expanded_src)
     r = VerusResult()
     r.unit = u
